@@ -4,13 +4,6 @@ from fractions import Fraction
 
 
 
-_LONGNUM = re.compile(r'\d+\.\d{12,}(?:e[-+]?\d+)?')
-
-
-def _g15(m):
-    return repr(float(format(float(m.group(0)), '.15g')))
-
-
 def _as_num(a):
     """num / date -> Fraction, float -> python float, else None"""
     t = a['t']
@@ -56,14 +49,7 @@ def agrees(obs, exp, rel=1e-9):
     if te == 'txt':
         if to != 'txt':
             return False
-        if obs['v'] == exp['v']:
-            return True
-        # a non-integral double spelt with 16-17 significant digits ("0.28090000000000004"):
-        # Excel's text form has 15; no property fixes number formatting, so both spellings agree
-        so = ''.join(map(chr, obs['v']))
-        if _LONGNUM.search(so):
-            return _LONGNUM.sub(_g15, so) == ''.join(map(chr, exp['v']))
-        return False
+        return obs['v'] == exp['v']
     if te == 'bool':
         return to == 'bool' and obs['v'] == exp['v']
     if te == 'blank':
